@@ -540,6 +540,8 @@ class ExprMixin(object):
             return z3.Select(c.has, self.key_term(item, st))
         if isinstance(c, (Tup, PyList)):
             return z3.Or(*[self.compare(ast.Eq(), item, x, st) for x in c.items]) if c.items else z3.BoolVal(False)
+        if isinstance(c, SeqV):
+            return z3.Contains(c.z, z3.Unit(unwrap(self.deref(item, st))))
         raise Unsupported('membership in %r' % (c,))
 
     def key_sort(self, kty):
